@@ -715,9 +715,34 @@ def setNested (res : D) (c party : Key) (s : V) : Except Err D := do
   let inner ← ((res.get? c).getD (.dict [])).items
   pure (res.set c (.dict (D.set inner party s)))
 
-/-- ByParty.evaluate (core.py L1140-1199); `overallSeats = accepts_seats(overall_evaluator)` decides whether
-    `n_seats` is handed to the overall evaluator (e582ee8; before: always, `overallSeats := true`) -/
-def byPartyImpl (overallSeats allocPrev : Bool) (overall allocator : Sem) : Sem := fun a => do
+/-- ByParty.evaluate (core.py L1140-1200); `overallSeats = accepts_seats(overall_evaluator)` decides whether
+    `n_seats` is handed to the overall evaluator (e582ee8); the allocator gets the party's column of
+    `prev_gains` / `max_seats` each only if it accepts it (5bf2df2) -/
+def byPartyImpl (overallSeats allocPrev allocMax : Bool) (overall allocator : Sem) : Sem := fun a => do
+  if !a.noExt then throw eType
+  let n := a.n.getD .none
+  let prev := a.prev.getD (.dict [])
+  let max := a.max.getD (.dict [])
+  let ov ← voteTotals a.votes
+  let ores ← if overallSeats then overall { votes := ov, n := some n } else overall { votes := ov }
+  let od ← ores.items
+  let kvs ← a.votes.items
+  let res ← od.foldlM (fun (res : D) pk => do
+    let pv ← kvs.mapM (fun p => do
+      let sub ← subsetVotes p.2 (.list [V.ofKey pk.1])
+      let sd ← sub.items
+      let s ← sumVals sd
+      pure (p.1, V.num s))
+    let pp ← if allocPrev then (do let x ← partyColumn prev pk.1; pure (some x)) else pure Option.none
+    let pm ← if allocMax then (do let x ← partyColumn max pk.1; pure (some x)) else pure Option.none
+    let allocated ← allocator { votes := .dict pv, n := some pk.2, prev := pp, max := pm }
+    let ad ← allocated.items
+    ad.foldlM (fun res cs => setNested res cs.1 pk.1 cs.2) res) []
+  pure (.dict (kvs.foldl (fun res p => if D.has res p.1 then res else res ++ [(p.1, V.dict [])]) res))
+
+/-- ByParty.evaluate BEFORE 5bf2df2 (`prev_gains` and `max_seats` together whenever `prev_gains` is accepted)
+    and, with `overallSeats := true`, before e582ee8 — witnesses only -/
+def byPartyImplOld (overallSeats allocPrev : Bool) (overall allocator : Sem) : Sem := fun a => do
   if !a.noExt then throw eType
   let n := a.n.getD .none
   let prev := a.prev.getD (.dict [])
@@ -876,8 +901,11 @@ def eval : Ev → Sem
   | .removedApportionment e => removedApportionmentImpl (eval e)
   | .byParty overall alloc =>
       match alloc with
-      | some al => byPartyImpl (acceptsSeats overall) (acceptsPrevGains al) (eval overall) (eval al)
-      | Option.none => byPartyImpl (acceptsSeats overall) (acceptsPrevGains overall) (eval overall) (eval overall)
+      | some al =>
+          byPartyImpl (acceptsSeats overall) (acceptsPrevGains al) (acceptsMaxSeats al) (eval overall) (eval al)
+      | Option.none =>
+          byPartyImpl (acceptsSeats overall) (acceptsPrevGains overall) (acceptsMaxSeats overall)
+            (eval overall) (eval overall)
   | .multistage rounds depth => multistageImpl (evalList rounds) depth
   | .unusedVotes rounds quotas depth => unusedVotesImpl (evalList rounds) quotas depth
   | .partyList party le conv => partyListImpl (eval party) le (conv.map Conv.run)
